@@ -7,11 +7,11 @@
    render_node yields one and the same value or error from some fuels on, for every include
    graph (cyclic ones included) and every reference graph -- fuel being the model's only bound on
    call depth, this is "never fails to return" for the modelled code.
-   Domain of the rendering theorems ([clean_doc], [clean_table]): files whose mapping keys are
-   scalars with at most one marker ([sclean_yaml]) -- one key may be spelled several times
-   through markers (k, ~k, =k in one mapping); other shapes (container keys, double markers)
-   are exercised by the crash-freedom runs of the check, where conversion and rendering return
-   errors.
+   Domain of the rendering theorems ([clean_doc], [clean_table]): files whose string keys carry at
+   most one marker ([sclean_yaml]); keys of other kinds -- lists and mappings included -- are
+   unrestricted, and one key may be spelled several times through markers (k, ~k, =k in one
+   mapping).  Double markers (~=k) are exercised by the crash-freedom runs of the check, where
+   conversion and rendering return errors or values.
    PARTIAL (DESIGN section 7): byte-level YAML parsing, file-system faults and stack exhaustion
    live in libraries and the runtime; no Gallina model exhibits them; they are covered by the
    correspondence / crash-freedom runs only. *)
@@ -36,22 +36,29 @@ Theorem C11_clean_yaml_is_wellformed :
 Proof. exact try_value_wf. Qed.
 Eval cbv in "ASSUMPTIONS-OF C11_clean_yaml_is_wellformed"%string. Print Assumptions C11_clean_yaml_is_wellformed.
 
-(** More generally: scalar keys with at most one marker, the same key possibly spelled several
-    times in one mapping (k, ~k, =k): whatever such a document converts to is well-formed. *)
+(** More generally: string keys with at most one marker, keys of any other kind (lists and mappings
+    included), the same key possibly spelled several times in one mapping (k, ~k, =k): whatever
+    such a document converts to is well-formed. *)
 Theorem C11_single_marker_yaml_is_wellformed :
   forall y v, sclean_yaml y -> try_value_of_yaml y = Ok v -> wf v.
 Proof. exact try_value_wf_gen. Qed.
 Eval cbv in "ASSUMPTIONS-OF C11_single_marker_yaml_is_wellformed"%string. Print Assumptions C11_single_marker_yaml_is_wellformed.
 
 Example C11_key_spelled_twice :
-  let y := YMap [(YStr "k", YMap [(YStr "a", YNum (NInt 1))]); (YStr "~k", YStr "${x}"); (YStr "x", YNull)] in
+  let y := YMap [(YStr "k", YMap [(YStr "a", YNum (NInt 1))]); (YStr "~k", YStr "${x}"); (YStr "x", YNull);
+                 (YSeq [YNum (NInt 1)], YBool true)] in
   sclean_yaml y /\ ~ clean_yaml y /\ exists v, try_value_of_yaml y = Ok v.
 Proof.
   cbn zeta. split; [|split].
-  - cbn [sclean_yaml]. split; [|repeat split; eexists; split; [reflexivity | repeat constructor]].
-    eexists. split; [reflexivity | repeat constructor].
-  - cbn [clean_yaml]. intros [(ks & Hks & Hnd & _) _]. cbn in Hks. injection Hks as <-.
-    cbn in Hnd. inversion Hnd as [|? ? Hn _]; subst. apply Hn. left. reflexivity.
+    cbn [sclean_yaml]. unfold sclean_keys.
+    repeat match goal with
+           | |- _ /\ _ => split
+           | |- True => exact I
+           | |- Forall _ [] => constructor
+           | |- Forall _ (_ :: _) => constructor
+           | |- forall a, _ -> _ => cbn [fst]; intros a E; vm_compute in E; injection E as <-; reflexivity
+           end.
+  - cbn [clean_yaml]. intros [(ks & Hks & _) _]. cbn in Hks. discriminate.
   - eexists. vm_compute. reflexivity.
 Qed.
 
